@@ -337,5 +337,5 @@ func checkProofResult(result, value []byte) bool {
 	s = append(s, tempBytes...)
 	// TODO
 	//hash := crypto.Keccak256(value)
-	return bytes.Equal(s, value)
+	return bytes.Equal(s, common.LeftPadBytes(value, 32))
 }
